@@ -862,11 +862,58 @@ def part_e2e(chk, tier, rng, only=None):
     if only is None:
         duplicate_name_case(chk)
         empty_leftover_case(chk)
+        large_group_case(chk)
+        from sched_checks import names_differing_only_in_case
+
+        names_differing_only_in_case(chk)
     agree = compare_with_model(chk, "real runs", obss, DEFS_B % {"universe": clist([cstr(n) for n in UNIVERSE])})
     if obss:
         _l, o, _r = obss[len(obss) // 2]
         chk.sample({"combine_dir": o["out"], "deps": [(d["name"], d["dir"]) for d in o["deps"]], "entries": o["post"], "outcome": o["outcome"]})
     return checked, len(obss), agree
+
+
+def large_group_case(chk, n=300):
+    """Every dependency gets its entry, and the entry designates the version made in THIS invocation -- also when the
+    closure has more tasks than any plausible internal cache (a run_experiment_group of 300 instances in a nested
+    package): first run, then --again.  For each instance the link <group>.task/<name> must resolve to the $COND_OUT that
+    instance recorded in that run.  (Seed C18/k: the task index kept only the 256 most recently used task objects; an
+    evicted experiment was rebuilt without this run's new version -- its entry was missing on the first run and pointed at
+    the previous version after --again.)"""
+    import implrun
+
+    run = 'echo $COND_OUT > $COND_OUT/self'
+    files = {"lab/sweeps/COND": 'run_experiment_group(name="g", run=%r, experiments=[ExperimentInstance(name="i%%03d" %% k) for k in range(%d)])\n' % (run, n)}
+    root = implrun.make_project(files)
+    gdir = os.path.join(root, "cond-out", "lab", "sweeps", "g.task")
+    problems = []
+    for argv in (["run", "//lab/sweeps:g"], ["run", "//lab/sweeps:g", "--again"]):
+        res = implrun.run_cond(argv, root, timeout=600)
+        chk.coverage["evaluations"] += 1
+        chk.count("e2e", "large group (%d instances)" % n)
+        if res.code != 0:
+            problems.append("`cond %s` exited %s: %s" % (" ".join(argv), res.code, implrun.strip_ansi(res.out + res.err).strip()[-200:]))
+            break
+        newest = {}
+        for r in implrun.index_rows(root):
+            newest[r[0]] = max(newest.get(r[0], 0), r[1])
+        missing, wrong = [], []
+        for k in range(n):
+            name = "i%03d" % k
+            want = os.path.join(root, "cond-out", "lab", "sweeps", "%s.task.%d" % (name, newest.get("//lab/sweeps:" + name, 0)))
+            entry = os.path.join(gdir, name)
+            if not os.path.lexists(entry):
+                missing.append(name)
+            elif os.path.realpath(entry) != os.path.realpath(want):
+                wrong.append((name, os.path.basename(os.path.realpath(entry)), os.path.basename(want)))
+        if missing:
+            problems.append("`cond %s`: %d of the %d dependencies have no entry in the combine directory (first: %r)" % (" ".join(argv), len(missing), n, missing[:3]))
+        if wrong:
+            problems.append("`cond %s`: %d entries do not designate the version made in this run (first: %r)" % (" ".join(argv), len(wrong), wrong[:2]))
+    for msg in problems[:2]:
+        chk.violation("impl-violation", "a combine over %d experiments: %s" % (n, msg), {"input": {"part": "large-group", "files": files}, "oracle_verdict": msg}, match_key={"part": "large-group"}, size=4)
+    if not problems:
+        chk.coverage["traces_validated_against_impl"] = chk.coverage.get("traces_validated_against_impl", 0) + 2
 
 
 # ============================================================================= entry point
